@@ -468,3 +468,38 @@ Proof.
   - apply Rmult_lt_0_compat; auto.
   - apply Rmult_lt_0_compat; auto. apply Rmult_lt_0_compat; auto.
 Qed.
+
+(* ------------------------------------------------------------------ scale invariance *)
+Open Scope Q_scope.
+Definition q2scale (c : Q) (S : Q2) : Q2 := mkQ2 (c * q00 S) (c * q01 S) (c * q10 S) (c * q11 S).
+
+Lemma xx_auto_scale H cov c : ~ c == 0 -> ~ q00 cov == 0 ->
+  xx_auto_of H (q2scale c cov) == c * xx_auto_of H cov.
+Proof. destruct H as [[? ?] [? ?] [? ?] [? ?]]. destruct cov as [s00 s01 s10 s11].
+  unfold xx_auto_of, q2scale, cnorm2, cadd, cscale, re, im; simpl. intros Hc Hs. field. split; assumption. Qed.
+Lemma yy_auto_scale H cov c : ~ c == 0 -> ~ q11 cov == 0 ->
+  yy_auto_of H (q2scale c cov) == c * yy_auto_of H cov.
+Proof. destruct H as [[? ?] [? ?] [? ?] [? ?]]. destruct cov as [s00 s01 s10 s11].
+  unfold yy_auto_of, q2scale, cnorm2, cadd, cscale, re, im; simpl. intros Hc Hs. field. split; assumption. Qed.
+
+Lemma Qmul_nz a b : ~ a == 0 -> ~ b == 0 -> ~ a * b == 0.
+Proof. intros Ha Hb E. destruct (Qmult_integral _ _ E); contradiction. Qed.
+
+(* multiplying the innovation covariance by c <> 0 leaves both directional log arguments unchanged *)
+Theorem gc_scale_cov H cov c :
+  ~ c == 0 -> ~ q00 cov == 0 -> ~ q11 cov == 0 ->
+  ~ xx_auto_of H cov == 0 -> ~ yy_auto_of H cov == 0 ->
+  gc_y2x (granger_core H (q2scale c cov)) == gc_y2x (granger_core H cov) /\
+  gc_x2y (granger_core H (q2scale c cov)) == gc_x2y (granger_core H cov).
+Proof.
+  intros Hc Hs Hg Hx Hy.
+  assert (Hs' : ~ q00 (q2scale c cov) == 0) by (simpl; apply Qmul_nz; assumption).
+  assert (Hg' : ~ q11 (q2scale c cov) == 0) by (simpl; apply Qmul_nz; assumption).
+  assert (Hx' : ~ xx_auto_of H (q2scale c cov) == 0) by (rewrite xx_auto_scale by assumption; apply Qmul_nz; assumption).
+  assert (Hy' : ~ yy_auto_of H (q2scale c cov) == 0) by (rewrite yy_auto_scale by assumption; apply Qmul_nz; assumption).
+  split.
+  - rewrite (y2x_form H (q2scale c cov) Hs' Hx'), (y2x_form H cov Hs Hx), xx_auto_scale by assumption.
+    simpl. generalize (cnorm2 (m01 H)) (xx_auto_of H cov) Hx. intros n x Hx0. field. repeat split; assumption.
+  - rewrite (x2y_form H (q2scale c cov) Hg' Hy'), (x2y_form H cov Hg Hy), yy_auto_scale by assumption.
+    simpl. generalize (cnorm2 (m10 H)) (yy_auto_of H cov) Hy. intros n x Hx0. field. repeat split; assumption.
+Qed.
